@@ -151,13 +151,30 @@ Definition check_multi (m : multi_case) : result :=
     (no server needed): it must cover every member, otherwise the client is pinned to a
     subset and the syncer stops following the store when those servers are down although the
     store keeps its quorum ([C19_refuted_single_endpoint]). *)
-Record ep_case := { e_members : nat; e_same_host : bool; e_endpoints : nat; e_covers : bool }.
+Record ep_case := { e_members : nat; e_same_host : bool; e_endpoints : nat; e_covers : bool;
+                    e_send_opt : Z;   (* cluster.max-call-send-msg-size the client was built from *)
+                    e_send : Z;       (* observed per-call send limit of the client (-1: not observable) *)
+                    e_recv : Z }.     (* observed per-call receive limit *)
+
+(** message-size limits of the member's etcd client: the option limits what the member SENDS;
+    what it may RECEIVE (a pull of the whole watched content) stays at the etcd client's default
+    (math.MaxInt32), whatever the send option is - otherwise pulls of a content larger than
+    the send option fail for ever and the syncer cannot converge. *)
+Definition model_send_limit (opt : Z) : Z := if (0 <? opt)%Z then opt else 2097152%Z.
+Definition model_recv_limit : Z := 2147483647%Z.
+
+Definition limits_ok (e : ep_case) : bool :=
+  ((e_recv e =? -1) || (e_recv e =? model_recv_limit))%Z &&
+  ((e_send e =? -1) || (e_send e =? model_send_limit (e_send_opt e)))%Z.
 
 Definition check_endpoints (e : ep_case) : result :=
-  let ok := Nat.eqb (e_endpoints e) (List.length (all_members (e_members e))) && e_covers e in
-  (ok, ok, (if Nat.ltb 1 (e_members e) then (if e_same_host e then 2 else 1) else 0)%N, 0%N).
+  let ok := Nat.eqb (e_endpoints e) (List.length (all_members (e_members e))) && e_covers e && limits_ok e in
+  (ok, ok,
+   (if Nat.ltb 1 (e_members e) then (if e_same_host e then 2 else 1)
+    else if (e_send_opt e =? 10485760)%Z then 0 else 3)%N, 0%N).
 
-Definition explain_endpoints (e : ep_case) := (List.length (all_members (e_members e)), true).
+Definition explain_endpoints (e : ep_case) :=
+  (List.length (all_members (e_members e)), true, model_send_limit (e_send_opt e), model_recv_limit).
 
 (** for replay files: per subscription (model states, model messages, corr, prop) *)
 Definition explain_sync (c : c19_case) :=
